@@ -77,6 +77,18 @@ public:
     void
     reset();
 
+#if defined(APACHE_XALAN_C_VERIF)
+    // Verification hook:  sizes of the internal stacks.
+    void
+    verifSnapshot(XalanVector<XalanSize_t>&     theSizes) const
+    {
+        theSizes.push_back(m_stack.size());
+        theSizes.push_back(m_guardStack.size());
+        theSizes.push_back(m_elementFrameStack.size());
+        theSizes.push_back(m_globalStackFrameIndex == size_type(~0u) ? 0 : m_globalStackFrameIndex + 1);
+    }
+#endif
+
     /**
      * Push a frame marker for an element.
      *
